@@ -282,6 +282,49 @@ def run(ctx: Ctx):
             ev.append({"k": "enc", "type": typ, "v": val, "text": L(text), "back": decode(typ, S(L(text)))})
             meta.append({"type": typ, "v": val, "path": f"{path} with a {type(sub).__mro__[1].__name__} subclass"})
             ctx.case(("subclass", typ, path, repr(val)), True)
+    # zoned values: the text is the wall-clock reading (FORM #3, no Z) whatever was encoded before -- in particular right
+    # after a value that denotes the SAME instant in another zone or in UTC (equal and equal-hash in Python) -- and an explicit
+    # period is written with exactly the end it was given, also when the clocks change between start and end
+    from icalendar.timezone import tzp as _tzp
+    from zoneinfo import ZoneInfo as _ZI
+
+    def _wall(x, flag):
+        return [x.year, x.month, x.day, x.hour, x.minute, x.second, flag]
+    try:
+        for prov in ("zoneinfo", "pytz"):
+            _tzp.use(prov)
+            for (y_, mo_, d_, h_), zones in (((2024, 6, 1, 12), ("Europe/Berlin", "Europe/Paris", "America/Los_Angeles")),
+                                            ((2031, 3, 9, 9), ("America/Los_Angeles", "Asia/Kolkata")), ((2024, 10, 27, 0), ("Europe/Vienna", "Australia/Lord_Howe"))):
+                u = _tzp.localize_utc(datetime(y_, mo_, d_, h_, 30, 0))
+                seq = [(u, 1)]
+                for zn in zones:
+                    seq += [(u.astimezone(_tzp.timezone(zn)), 0), (u, 1)]
+                seq += [(u.astimezone(_tzp.timezone(zones[0])), 0), (u.astimezone(_tzp.timezone(zones[1])), 0)]
+                for path, enc_fn in (("vDatetime", lambda x: vDatetime(x).to_ical()), ("vDDDTypes", lambda x: vDDDTypes(x).to_ical())):
+                    for x, flag in seq:
+                        try:
+                            text = enc_fn(x)
+                        except Exception as e:   # noqa: BLE001
+                            text = ("EXC:" + type(e).__name__).encode()
+                        v = _wall(x, flag)
+                        ev.append({"k": "enc", "type": "date-time", "v": v, "text": L(text), "back": decode("date-time", S(L(text)))})
+                        meta.append({"type": "date-time", "v": v, "path": f"{path} of a value in {x.tzinfo} after an equal instant in another zone ({prov})"})
+                        ctx.case(("equal-instant", prov, path, repr(x)), True)
+            for tzid, d1, d2 in (("Europe/Berlin", datetime(2024, 1, 10, 9, 0), datetime(2024, 1, 12, 17, 30)), ("America/New_York", datetime(2024, 3, 9, 12, 0), datetime(2024, 3, 11, 12, 0)),
+                                 ("Europe/Berlin", datetime(2024, 10, 26, 20, 0), datetime(2024, 10, 27, 20, 0)), ("America/New_York", datetime(2024, 11, 3, 0, 30), datetime(2024, 11, 3, 3, 0)),
+                                 ("Australia/Lord_Howe", datetime(2024, 4, 6, 23, 0), datetime(2024, 4, 7, 5, 0)), ("Asia/Tokyo", datetime(2024, 5, 5, 5, 5), datetime(2024, 5, 5, 6, 5))):
+                st, en = _tzp.localize(d1, tzid), _tzp.localize(d2, tzid)
+                for path, enc_fn in (("vPeriod", lambda a, b: vPeriod((a, b)).to_ical()), ("vDDDTypes", lambda a, b: vDDDTypes((a, b)).to_ical())):
+                    try:
+                        text = enc_fn(st, en)
+                    except Exception as e:   # noqa: BLE001
+                        text = ("EXC:" + type(e).__name__).encode()
+                    pv = [_wall(d1, 0), "e", _wall(d2, 0)]
+                    ev.append({"k": "enc", "type": "period", "v": pv, "text": L(text), "back": decode("period", S(L(text)))})
+                    meta.append({"type": "period", "v": pv, "path": f"{path} explicit period in {tzid} ({prov})"})
+                    ctx.case(("zoned-period", prov, path, tzid, d1.isoformat()), True)
+    finally:
+        _tzp.use_default()
     ctx.sample({"trace_event": ev[-1]})
     for idx, clause, known in ctx.validate_trace("Trace_ValueCodecs", ev, cfg_text(spec="Spec"), chunk=10000, timeout=3000):
         if clause.startswith("M:"):
